@@ -26,7 +26,8 @@ from chameleon.utils import resolve_dotted
 DEFAULT_MARKER = ImportableMarker(__name__, "DEFAULT")
 
 split_parts = re.compile(r'(?<!\\)\|')
-match_prefix = re.compile(r'^\s*([a-z][a-z0-9\-_]*):').match
+# (``lambda:`` opens a Python expression, not an expression type)
+match_prefix = re.compile(r'^\s*(?!lambda:)([a-z][a-z0-9\-_]*):').match
 re_continuation = re.compile(r'\\\s*$', re.MULTILINE)
 
 
